@@ -139,7 +139,7 @@ def rule_recurrence(chk, prog):
     seen = {}
     for s_ in set(shifts):
       args = list(s_.a[1])
-      kw = dict(s_.a[2])
+      kw = util.call_kwargs(s_)
       y, off = args[0], args[1]
       axis = kw.get('axis', args[2] if len(args) > 2 else None)
       if off.k != 'const' or axis != sym.const(-1):
@@ -470,7 +470,7 @@ def rule_clip(chk, prog):
     chk.check(d is not None and getattr(d, 'value', None) is True, rule, f'{SH}.Grid.{fname}: clip defaults to True', sym.unparse(d) if d is not None else 'no default', (f.file, f.lineno))
     v, ctx, env = ev.run(f)
     ok = v.k == 'phi' and v.a[0] == S('clip') and clipc(v.a[1]) and util.call_args(v.a[1])[0] == v.a[2] and not clipc(v.a[2])
-    okn = ok and (len(util.call_args(v.a[1])) == 1 and not util.call_kwargs(v.a[1]))
+    okn = ok and (len(util.call_args(v.a[1])) == 1 and not v.a[1].a[2])
     chk.check(okn, rule, f'{SH}.Grid.{fname}: clip=True returns clip_wavenumbers(raw) (one wavenumber), clip=False the very same raw value', sym.show(v, maxdepth=4)[:200], (f.file, f.lineno),
               'φ(clip ? clip_wavenumbers(raw) : raw)', sym.show(v, maxdepth=4)[:200])
   # form of the raw operators
